@@ -101,9 +101,9 @@ func chooseRowSeq(x *engine.X, rt *RT, kind int) ([]any, bool) {
 		out := append(rep(rt.Rows[0], n1), rep(rt.Rows[mid], n2)...)
 		return append(out, rep(rt.Rows[0], n3)...), true
 	case 8: // large pages of distinct, poorly compressible values
-		ns := []int{400}
+		ns := []int{400, 600}
 		if x.Tier == "thorough" {
-			ns = []int{300, 400, 1000, 3000}
+			ns = []int{300, 400, 513, 600, 1000, 3000}
 		}
 		n := ns[x.Choose(len(ns), "bign")]
 		base := []int{1, 0}[x.Choose(2, "bigbase")]
